@@ -97,10 +97,21 @@ def r1_apply_is_lazy_on_the_variadic_path(ctx):
     ctx.ob("C08.R1", f"{RT}::_fn_apply_to.apply_to[variadic]::pre-binding loop bounded by the fixed arity", RT, variadic.lineno, ok, "" if ok else "the loop that moves tail elements into fixed parameters is not bounded by the number of missing fixed arguments")
     ok = any(P.un(a) == "num_missing_args = max_fixed_arity - len(args)" for a in ast.walk(variadic) if isinstance(a, ast.Assign))
     ctx.ob("C08.R1", f"{RT}::_fn_apply_to.apply_to[variadic]::num_missing_args = max_fixed_arity - len(args)", RT, variadic.lineno, ok, "" if ok else "the number of fixed parameters still to bind is computed differently")
+    # a Var standing for the fn: its own apply_to, or the fn is taken out of the Var before the test
+    var = P.find_def(ctx.py(RT), "Var")
+    var_has = var is not None and "apply_to" in P.methods(var)
+    first_test = min((n.lineno for n in ast.walk(ap) if isinstance(n, ast.If) and "apply_to" in P.un(n.test)), default=0)
+    deref = [n for n in ast.walk(ap) if isinstance(n, ast.If) and P.un(n.test) == "isinstance(f, Var)" and n.lineno < first_test
+             and any(isinstance(s, ast.Assign) and P.un(s.targets[0]) == "f" and P.un(s.value) in ("f.value", "f.deref()") for s in n.body)]
+    ok = var_has or bool(deref)
+    ctx.ob("C08.R1", f"{RT}::apply::a Var is applied through its fn's apply_to", RT, ap.lineno, ok,
+           "" if ok else "apply looks for apply_to on the Var object, which has none: (apply #'f (range)) on a variadic f realises the whole argument seq and never returns",
+           witness="(defn f [a & r] a) (apply #'f (range))")
     un = ctx.fn(RT, "_unwrap_rest_args")
     rets = [P.un(r.value) for r in ast.walk(un) if isinstance(r, ast.Return)]
-    ok = sorted(rets) == sorted(["concat(final, last.rest)", "concat(final, [last])"])
-    ctx.ob("C08.R1", f"{RT}::_unwrap_rest_args::{' | '.join(rets)}", RT, un.lineno, ok, "" if ok else "_unwrap_rest_args does not splice the wrapped tail lazily after the positional rest arguments")
+    need = {"concat(final, last.rest)", "concat(final, [last])"}
+    ok = need <= set(rets) and set(rets) <= need | {"last.rest"}
+    ctx.ob("C08.R1", f"{RT}::_unwrap_rest_args::lazy concat of the positional rest and the wrapped tail", RT, un.lineno, ok, "" if ok else f"_unwrap_rest_args does not splice the wrapped tail lazily after the positional rest arguments (returns {' | '.join(rets)})")
     gen = ctx.py(GEN)
     ok = P.module_assign(gen, "_UNWRAP_REST_ARGS_FN_NAME") is not None and any(isinstance(c, ast.Call) and any(P.un(k.value) == "_UNWRAP_REST_ARGS_FN_NAME" or P.un(a) == "_UNWRAP_REST_ARGS_FN_NAME" for k in c.keywords for a in [k.value]) for c in ast.walk(gen))
     ctx.ob("C08.R1", f"{GEN}::variadic fns unwrap their rest args with _unwrap_rest_args", GEN, 0, ok, "" if ok else "generated variadic functions no longer call _unwrap_rest_args")
@@ -126,11 +137,28 @@ def r2_recur_is_a_loop(ctx):
     ok = any(P.un(a) == "ctx.recur_point.has_recur = True" for a in ast.walk(rec) if isinstance(a, ast.Assign))
     ctx.ob("C08.R2", f"{GEN}::_recur_to_py_ast::marks the recur point", GEN, rec.lineno, ok, "" if ok else "has_recur is never set")
     tr = ctx.fn(RT, "_trampoline")
-    inner = next((n for n in tr.body if isinstance(n, P.FUNC)), None)
-    ok = inner is not None and any(isinstance(w, ast.While) and P.un(w.test) == "True" for w in ast.walk(inner)) and not any(P.un(c.func) in ("trampoline", "_trampoline") for c in P.calls(inner))
+    inners = [n for n in ast.walk(tr) if isinstance(n, P.FUNC) and n is not tr]
+    names = {n.name for n in inners} | {"_trampoline"}
+    ok = bool(inners) and all(any(isinstance(w, ast.While) and P.un(w.test) == "True" for w in ast.walk(i)) and not any(P.un(c.func) in names for c in P.calls(i)) for i in inners)
     ctx.ob("C08.R2", f"{RT}::_trampoline::iterative while True", RT, tr.lineno, ok, "" if ok else "the trampoline recurses")
-    ok = inner is not None and "isinstance(ret, _TrampolineArgs)" in P.un(inner) and "args = ret.args" in P.un(inner)
+    ok = bool(inners) and all("isinstance(ret, _TrampolineArgs)" in P.un(i) and "args = ret.args" in P.un(i) for i in inners)
     ctx.ob("C08.R2", f"{RT}::_trampoline::re-invokes with ret.args while a _TrampolineArgs comes back", RT, tr.lineno, ok, "" if ok else "the trampoline loop does not re-invoke with the recur arguments")
+    # the generator puts the decorator on `async def` functions too (is_async next to the decorator
+    # list): the value tested for _TrampolineArgs must then be the awaited result, not the coroutine
+    emits_async = any(isinstance(c, ast.Call) and any(k.arg == "is_async" and P.un(k.value) != "False" for k in c.keywords)
+                      and any(k.arg == "decorator_list" and "_TRAMPOLINE_FN_NAME" in P.un(k.value) for k in c.keywords) for c in ast.walk(gen))
+    sync = [i for i in inners if isinstance(i, ast.FunctionDef)]
+    asyn = [i for i in inners if isinstance(i, ast.AsyncFunctionDef)]
+
+    def _awaits(i):
+        return any(isinstance(a, ast.Assign) and P.un(a.targets[0]) == "ret" and isinstance(a.value, ast.Await) and isinstance(a.value.value, ast.Call) and P.un(a.value.value.func) == "f" for a in ast.walk(i))
+
+    guards = [n for n in ast.walk(tr) if isinstance(n, ast.If) and "iscoroutinefunction(f)" in P.un(n.test)]
+    ok = (not emits_async) or (bool(asyn) and all(_awaits(i) for i in asyn) and bool(sync) and bool(guards)
+                               and all(any(a in ast.walk(g) for g in guards) for a in asyn))
+    ctx.ob("C08.R2", f"{RT}::_trampoline::a coroutine function is trampolined by awaiting each round", RT, tr.lineno, ok,
+           "" if ok else "the trampoline calls an `async def` function and tests the un-awaited coroutine for _TrampolineArgs: recur in an async fn runs the body once and returns the _TrampolineArgs object to the awaiting caller",
+           witness="(defasync f [n acc] (if (pos? n) (recur (dec n) (+ acc n)) acc)) (asyncio/run (f 4 0)) => a _TrampolineArgs object")
     lp = ctx.fn(GEN, "__loop_recur_to_py_ast")
     appends = [P.un(c.args[0]) for c in sorted(P.calls(lp), key=lambda c: c.lineno) if P.un(c.func) == "recur_deps.append" and c.args]
     ok = bool(appends) and appends[-1] == "ast.Continue()"
@@ -142,59 +170,168 @@ def _seq_model():
     return cls
 
 
-@rule("C08.R4", floor=5)
+@rule("C08.R4", floor=9)
 def r4_recur_rest_argument_repacking(ctx):
-    """_TrampolineArgs.args, evaluated on representative recur argument tuples: for a variadic
-    target the final argument is the rest seq -- nil means 'no rest arguments', a seq is spliced in
-    order, the fixed arguments are untouched; for a non-variadic target the arguments pass as given."""
+    """_TrampolineArgs.args followed by _unwrap_rest_args, evaluated on representative recur argument
+    tuples and judged by what the receiving arity binds: for a variadic target the final argument is
+    the rest collection -- nil means 'no rest arguments', a seq or any other seqable collection
+    arrives as its elements in order, the fixed arguments are untouched; a rest seq handed over
+    wrapped gains no layer per iteration; for a non-variadic target the arguments pass as given."""
     tree = ctx.py(RT)
     cls = P.find_def(tree, "_TrampolineArgs")
-    if cls is None:
-        raise AnalysisError("anchor vanished: runtime._TrampolineArgs")
+    wcls = P.find_def(tree, "_WrappedRestArgs")
+    if cls is None or wcls is None:
+        raise AnalysisError("anchor vanished: runtime._TrampolineArgs / _WrappedRestArgs")
     model = ClassModel(cls)
+    wmodel = ClassModel(wcls)
     iseq = _seq_model()
     prop = model.props.get("args")
     if prop is None:
         raise AnalysisError("anchor vanished: _TrampolineArgs.args")
+    unwrap = ctx.fn(RT, "_unwrap_rest_args")
+    realised = []
 
     def chain(*xs):
         out = []
         for x in xs:
+            if isinstance(x, Obj) and x.cls.isa("LazySeq"):
+                realised.append(x)
             out.extend(interp.iterate(x))
         return tuple(out)
 
     # collaborators a variant may reach for: modelled so that a wrong re-packing is reported as a
-    # wrong tuple instead of an uninterpretable program
+    # wrong binding instead of an uninterpretable program
     def to_seq(x):
-        return None if x is None or (isinstance(x, Obj) and not x.f.get("_items")) else x
+        if x is None:
+            return None
+        if isinstance(x, Obj) and x.cls.isa("ISeq"):
+            return x if x.f.get("_items") else None
+        if isinstance(x, Obj) and x.cls.isa("ISeqable"):
+            return Obj(iseq, _items=x.f["_items"]) if x.f.get("_items") else None
+        raise PyRaise("TypeError", "not seqable")
 
-    interp = Interp(globals_={"itertools.chain": chain, "chain": chain, "to_seq": to_seq, "lseq.to_seq": to_seq,
-                              "_WrappedRestArgs": lambda x: ("<wrapped rest args>", x)})
+    def concat(*xs):
+        items = []
+        for x in xs:
+            items.extend(x.f["_items"] if isinstance(x, Obj) else interp.iterate(x))
+        return Obj(iseq, _items=tuple(items), _wraps=any(isinstance(x, Obj) for x in xs))
+
+    interp = Interp(globals_={"itertools.chain": chain, "chain": chain, "to_seq": to_seq, "lseq.to_seq": to_seq, "concat": concat,
+                              "_WrappedRestArgs": lambda x: Obj(wmodel, rest=x)})
     lazy = ClassModel(ast.parse("class LazySeq:\n    pass\n").body[0], bases=(iseq,))
+    seqable = ClassModel(ast.parse("class ISeqable:\n    pass\n").body[0])
+    vector = ClassModel(ast.parse("class PersistentVector:\n    pass\n").body[0], bases=(seqable,))
     seq12 = Obj(iseq, _items=(1, 2))
     empty = Obj(iseq, _items=())
     lazy12 = Obj(lazy, _items=(1, 2))
+    vec12 = Obj(vector, _items=(1, 2))
+    vec0 = Obj(vector, _items=())
+
+    def bound(packed, nfixed):
+        """What a variadic arity with `nfixed` fixed parameters binds when called with *packed:
+        (fixed values, rest elements, the rest object)."""
+        fixed, va = tuple(packed[:nfixed]), tuple(packed[nfixed:])
+        if not va:
+            return fixed, (), None
+        r = interp.call_function(unwrap, [va], {})
+        return fixed, tuple(r.f["_items"]), r
+
     cases = [
-        ("variadic, rest=nil", True, (7, None), (7,)),
-        ("variadic, rest=(1 2)", True, (7, seq12), (7, 1, 2)),
-        ("variadic, rest=()", True, (7, empty), (7,)),
-        ("variadic, rest=lazy (1 2): spliced like any other seq (a wrapper would nest one level per iteration)", True, (7, lazy12), (7, 1, 2)),
-        ("variadic, only rest=nil", True, (None,), ()),
-        ("non-variadic", False, (7, 8), (7, 8)),
-        ("non-variadic, nil argument kept", False, (7, None), (7, None)),
+        ("variadic, rest=nil", True, (7, None), (7,), ()),
+        ("variadic, rest=(1 2)", True, (7, seq12), (7,), (1, 2)),
+        ("variadic, rest=()", True, (7, empty), (7,), ()),
+        ("variadic, rest=lazy (1 2)", True, (7, lazy12), (7,), (1, 2)),
+        ("variadic, rest=[1 2]: a vector is the rest collection, not one rest argument", True, (7, vec12), (7,), (1, 2)),
+        ("variadic, rest=[]", True, (7, vec0), (7,), ()),
+        ("variadic, only rest=nil", True, (None,), (), ()),
+        ("non-variadic", False, (7, 8), (7, 8), None),
+        ("non-variadic, nil argument kept", False, (7, None), (7, None), None),
+        ("non-variadic, seq argument kept", False, (7, seq12), (7, seq12), None),
     ]
-    for label, var, args, want in cases:
+    for label, var, args, wfixed, wrest in cases:
         o = Obj(model, _has_varargs=var, _args=args, _kwargs={})
+        del realised[:]
+        robj = None
         try:
             got = interp.call_function(prop, [o], {})
             got = tuple(got) if not isinstance(got, tuple) else got
-            ok, why = got == want, "" if got == want else f"recur arguments {args!r} are re-packed as {got!r}, expected {want!r}"
+            if var:
+                fixed, rest, robj = bound(got, len(args) - 1)
+                ok = fixed == wfixed and rest == wrest
+                why = "" if ok else f"recur arguments {args!r} re-enter the arity with fixed parameters {fixed!r} and rest elements {rest!r}, expected {wfixed!r} and {wrest!r}"
+            else:
+                ok = len(got) == len(wfixed) and all(a is b or a == b for a, b in zip(got, wfixed))
+                why = "" if ok else f"recur arguments {args!r} are re-packed as {got!r}, expected {wfixed!r}"
         except Unsupported as e:
-            raise AnalysisError(f"_TrampolineArgs.args outside the interpretable fragment: {e}")
+            raise AnalysisError(f"_TrampolineArgs.args / _unwrap_rest_args outside the interpretable fragment: {e}")
         except PyRaise as e:
             ok, why = False, f"raises {e.name} for {args!r}"
         ctx.ob("C08.R4", f"{RT}::_TrampolineArgs.args::{label}", RT, prop.lineno, ok, why,
-               witness="(defn t [x & args] (if (pos? x) (recur (dec x) args) args)) (t 1) => (nil)")
+               witness="(defn t [x & args] (if (pos? x) (recur (dec x) args) args)) (t 1) => (nil); ((fn [n & r] (if (pos? n) (recur (dec n) [1 2]) r)) 1) => ([1 2])")
+        if "lazy" in label:
+            # either way of handing the rest seq over is accepted (spliced into the argument tuple,
+            # which the pinned unit test of _TrampolineArgs fixes for lists, or wrapped as apply
+            # does); a wrapped seq must then come out as itself, not inside a new concat
+            ok = robj is None or robj is lazy12 or not robj.f.get("_wraps")
+            ctx.ob("C08.R4", f"{RT}::_TrampolineArgs.args::passing the rest seq along adds no layer per iteration", RT, prop.lineno, ok,
+                   "" if ok else "the rest parameter re-bound by recur is a new concat around the previous one: after n iterations of (recur (dec n) r) realising r recurses n levels deep",
+                   witness="(apply (fn [n & r] (if (pos? n) (recur (dec n) r) (first r))) 100000 (range 5)) => RecursionError")
+
+
+def _single_arity_call(tree, fname, arity_pos, owner_pos):
+    """True when every call of `fname` passes, at `arity_pos`, the only arity of the node it passes
+    at `owner_pos`: `next(iter(<owner>.arities))` on the True branch of `len(<owner>.arities) == 1`."""
+    sites = [c for c in ast.walk(tree) if isinstance(c, ast.Call) and P.un(c.func) == fname]
+    if not sites:
+        return False
+    for c in sites:
+        if len(c.args) <= max(arity_pos, owner_pos):
+            return False
+        owner = P.un(c.args[owner_pos])
+        if P.un(c.args[arity_pos]) not in (f"next(iter({owner}.arities))", f"{owner}.arities[0]"):
+            return False
+        guard = None
+        for a in P.ancestors(c):
+            if isinstance(a, ast.If) and P.un(a.test) == f"len({owner}.arities) == 1" and any(c in ast.walk(s) for s in a.body):
+                guard = a
+                break
+        if guard is None:
+            return False
+    return True
+
+
+@rule("C08.R5", floor=3)
+def r5_recur_point_carries_the_flag_of_its_own_arity(ctx):
+    """The variadic flag of a recur point decides how `recur` re-packs its last argument, so it has to
+    be the flag of the arity whose loop id the recur point carries -- not of the fn or method as a
+    whole, which is variadic as soon as any arity is.  Taking it from the owner is the same thing
+    only where every caller passes the owner's single arity."""
+    tree = ctx.py(GEN)
+    n = 0
+    for fn in [f for f in ast.walk(tree) if isinstance(f, P.FUNC)]:
+        for c in ast.walk(fn):
+            if not (isinstance(c, ast.Call) and P.un(c.func) == "ctx.new_recur_point" and c.args):
+                continue
+            flag = next((k.value for k in c.keywords if k.arg == "is_variadic"), None)
+            if flag is None:
+                continue  # loop recur points have no flag
+            if P.enclosing_func(c) is not fn:
+                continue
+            n += 1
+            lid = c.args[0]
+            ok, why = True, ""
+            if not (isinstance(lid, ast.Attribute) and lid.attr == "loop_id" and isinstance(flag, ast.Attribute) and flag.attr == "is_variadic"):
+                ok, why = False, f"`{P.un(c)}`: the loop id / variadic flag are not read from an arity node"
+            elif P.un(lid.value) != P.un(flag.value):
+                params = [a.arg for a in fn.args.args]
+                a_name, o_name = P.un(lid.value), P.un(flag.value)
+                if not (a_name in params and o_name in params and _single_arity_call(tree, fn.name, params.index(a_name), params.index(o_name))):
+                    ok, why = False, (f"the recur point of `{a_name}` takes the variadic flag of `{o_name}`: a recur in a fixed arity of a fn (or method) that also has a "
+                                      f"variadic arity treats its last argument as the rest seq -- a seq is spliced into the argument list, nil is dropped")
+            ctx.ob("C08.R5", f"{GEN}::{fn.name}::recur point of {P.un(lid)}", GEN, c.lineno, ok, why,
+                   witness="((fn nest ([n acc] (if (pos? n) (recur (dec n) (list acc)) acc)) ([n acc & more] :unused)) 2 :a) => :a, expected ((:a))")
+    if n == 0:
+        raise AnalysisError("no function/method recur point found in the generator")
 
 
 @rule("C08.R3", floor=3)
@@ -240,7 +377,22 @@ SELFTEST = [
     {"name": "nil rest passed as an argument (the repaired defect)", "file": RT, "expect": "C08.R4",
      "old": "            if final is None:\n                # `nil` is how \"no rest arguments\" is passed to a variadic recur target\n                return self._args[:-1]\n", "new": ""},
     {"name": "recur rest spliced reversed", "file": RT, "expect": "C08.R4",
-     "old": "                return tuple(itertools.chain(inits, final))\n", "new": "                return tuple(itertools.chain(final, inits))\n"},
+     "old": "                return tuple(itertools.chain(inits, to_seq(final) or ()))\n", "new": "                return tuple(itertools.chain(to_seq(final) or (), inits))\n"},
+    {"name": "a vector passed as the rest collection becomes one rest argument (the repaired defect)", "file": RT, "expect": "C08.R4",
+     "edits": [{"file": RT, "old": "            if isinstance(final, (ISeq, ISeqable)):\n", "new": "            if isinstance(final, ISeq):\n"},
+               {"file": RT, "old": "to_seq(final) or ()))\n", "new": "final))\n"}]},
+    {"name": "recur point of a multi-arity fn takes the fn's variadic flag (the repaired defect)", "file": GEN, "expect": "C08.R5",
+     "old": "arity.loop_id, RecurType.FN, is_variadic=arity.is_variadic", "new": "arity.loop_id, RecurType.FN, is_variadic=node.is_variadic"},
+    {"name": "recur point of a deftype method arity takes the method's variadic flag (the repaired defect)", "file": GEN, "expect": "C08.R5",
+     "old": "arity.loop_id, RecurType.METHOD, is_variadic=arity.is_variadic", "new": "arity.loop_id, RecurType.METHOD, is_variadic=node.is_variadic"},
+    {"name": "twin: single-arity recur point reads the arity's own flag", "file": GEN, "expect": None,
+     "old": "method.loop_id, RecurType.FN, is_variadic=node.is_variadic", "new": "method.loop_id, RecurType.FN, is_variadic=method.is_variadic"},
+    {"name": "the trampoline tests the un-awaited coroutine (the repaired defect)", "file": RT, "expect": "C08.R2",
+     "old": "    if inspect.iscoroutinefunction(f):\n", "new": "    if False:\n", "nth": 0},
+    {"name": "async trampoline forgets to await", "file": RT, "expect": "C08.R2",
+     "old": "                ret = await f(*args, **kwargs)\n", "new": "                ret = f(*args, **kwargs)\n"},
+    {"name": "apply looks for apply_to on the Var (the repaired defect)", "file": RT, "expect": "C08.R1",
+     "old": "    if isinstance(f, Var):\n        # Apply the Var's function itself so its `apply_to` is found\n        f = f.value\n", "new": ""},
     {"name": "seeded C08/b: Var call bypasses thread bindings", "file": RT, "expect": "C08.R3",
      "old": "        return self.value(*args, **kwargs)", "new": "        return self._root(*args, **kwargs)"},
     {"name": "Var call passes keyword names positionally (the repaired defect)", "file": RT, "expect": "C08.R3",
